@@ -164,7 +164,7 @@ theorem getRow_ctx (tc : TestCase) (fuel : Nat) (s sg : RowIt) (ev : EvRow) (h :
 theorem getRow_row (tc : TestCase) (fuel : Nat) (s sg : RowIt) (ev : EvRow) (h : getRow tc fuel s = .row ev sg) :
     ∃ top : CRow, sg.prev = some top.entries ∧ ev.line = top.line ∧ ev.upd = top.upd ∧
       genInputs tc top.entries (changedFlags (if s.cache.isEmpty then s.prev else s.prev) top.entries) = .ok ev.inputs ∧
-      genExpected tc top.entries = .ok ev.expected := by
+      genExpected tc top.entries top.xcols = .ok ev.expected := by
   unfold getRow at h
   by_cases hemp : s.cache.isEmpty = true
   · simp only [hemp, if_true] at h ⊢
